@@ -58,6 +58,21 @@ def _lin_sub(a, b):
     return r, a[1] - b[1]
 
 
+def _phis_in(t):
+    out = []
+
+    def walk(y):
+        if isinstance(y, tuple):
+            if len(y) == 2 and y[0] == 'phi' and isinstance(y[1], int):
+                if y not in out:
+                    out.append(y)
+                return
+            for z in y:
+                walk(z)
+    walk(t)
+    return out
+
+
 def _ctr_shape(ebf, ablk, eb):
     """FRMPayload encryption judged in terms of the payload offset k = (position XORed) - start, whatever the loop
     variable is: the loop variable X runs over a Range whose first / last+1 positions are start / end, the XOR is
@@ -73,12 +88,25 @@ def _ctr_shape(ebf, ablk, eb):
         return False
     # loop variable: the Some payload of Iterator::next over Range{start: s0, end: e0}
     X = rules.find_in_term(P, lambda y: isinstance(y, tuple) and y[:1] == ('field',) and len(y) == 3 and y[2] == '0' and isinstance(y[1], tuple) and y[1][:1] == ('as',) and is_call(y[1][1], 'Iterator::next'))
+    f = None
     if X is None:
-        return False
-    rng = rules.find_in_term(X, lambda y: isinstance(y, tuple) and y[:1] == ('agg',) and y[1].endswith('ops::range::Range'))
-    if rng is None:
-        return False
-    f = dict(rng[2])
+        # a counting `while x < e { ..; x += 1 }` instead of `for x in s..e`: a loop variable defined as (first value, itself + 1), the XOR
+        # executed under x < e
+        for cand in [y for y in _phis_in(P)]:
+            dl = rules.defs_with_conditions(ebf, cand[1])
+            inits = [d for d, cs, bb in dl if rules.linear(d) != ({cand: 1}, 1)]
+            incs = [d for d, cs, bb in dl if rules.linear(d) == ({cand: 1}, 1)]
+            ends = [x[0][2] for x in path_conditions(ebf, xw[0].bb) if x[0][0] == 'Lt' and cond_true(x) and peel(x[0][1]) == cand]
+            if len(inits) == 1 and len(incs) == 1 and len(ends) == 1:
+                X, f = cand, {'start': inits[0], 'end': ends[0]}
+                break
+        if X is None:
+            return False
+    if f is None:
+        rng = rules.find_in_term(X, lambda y: isinstance(y, tuple) and y[:1] == ('agg',) and y[1].endswith('ops::range::Range'))
+        if rng is None:
+            return False
+        f = dict(rng[2])
     lp = rules.linear(P)
     c_ = _lin_sub(lp, ({X: 1}, 0))                      # P = X + c
     if X in c_[0]:
